@@ -256,6 +256,9 @@ type Event struct {
 }
 
 type Recorder struct {
+	// OnHlsMakeTsHook, if set, runs inside the notification callback (an integrator's handler may call
+	// the server's API from there: lal delivers notifications off its locks)
+	OnHlsMakeTsHook func(base.HlsMakeTsInfo)
 	PortProto map[string][]string // server port → protocols lal reports for sessions accepted there
 	mu     sync.Mutex
 	cond   *sync.Cond
@@ -301,6 +304,9 @@ func (r *Recorder) OnRtmpConnect(info base.RtmpConnectInfo) {
 }
 func (r *Recorder) OnHlsMakeTs(info base.HlsMakeTsInfo) {
 	r.add("hls_make_ts", base.SessionEventCommonInfo{StreamName: info.StreamName}, info.TsFile)
+	if f := r.OnHlsMakeTsHook; f != nil {
+		f(info)
+	}
 }
 
 func (r *Recorder) Snapshot() []Event {
